@@ -319,23 +319,31 @@ def readLenLoop (rblk : Nat) : Nat → Inp → Nat → List Bytes → List Bytes
     | (acc', i', _, true) => (acc', i')
     | (acc', i', size', false) => readLenLoop rblk f i' size' acc'
 
+/-- the chunk-size line check of `readBody`: 1 to 8 hex digits, then optional blanks, then the CR of the line end or a
+`;extension`, and a value that fits an `int` -/
+def chunkLineValid (line : Bytes) : Bool :=
+  let nd := (line.takeWhile (fun c => (hexVal c).isSome)).length
+  let after := (line.drop nd).dropWhile (fun c => c == 32 || c == 9)
+  decide (1 ≤ nd ∧ nd ≤ 8) && (after.head? == some 13 || after.head? == some 59) && decide (hexToInt line ≤ 2147483647)
+
 /-- `readBody` with `Transfer-Encoding: chunked` -/
 def readChunkedLoop (rblk : Nat) : Nat → Inp → Nat → List Bytes → List Bytes × Inp
   | 0, i, _, acc => (acc, i)
   | f + 1, i, size, acc =>
     if i.dead then (acc, i) else
     match readLine i with
-    | (none, i1) => (acc, i1)                 -- "" : size 0, then the 2-byte read
+    | (none, i1) => (acc, { i1 with closed := true })       -- "" is no chunk-size line: the connection is given up
     | (some line, i1) =>
+      if !chunkLineValid line then (acc, { i1 with closed := true })
+      else
       let m := hexToInt line
-      -- `maxToRead = chunkSize.hexToInt()` is an int: 2^31.. is negative, the inner loop is skipped
-      let cnt := if m < 2147483648 then m else 0
-      match readInner rblk (cnt + 1) i1 cnt size acc with
+      match readInner rblk (m + 1) i1 m size acc with
       | (acc', i2, _, true) => (acc', i2)
       | (acc', i2, size', false) =>
         let two := i2.data.take 2
         let i3 := { (i2.advance two.length) with err := i2.err || two.length < 2 }
         if two.length < 2 then (acc', i3)
+        else if two != [13, 10] then (acc', { i3 with closed := true })   -- no CRLF after the chunk data: the framing is lost
         else if m = 0 then (acc', i3)
         else readChunkedLoop rblk f i3 size' acc'
 
@@ -561,8 +569,9 @@ def statusLine (proto : Bytes) (code : Nat) : Bytes := proto ++ [32] ++ utoa cod
 /-- outcome of `putFile(path, begin, end)` for a file of `n` bytes when a range was asked:
 `some (b, e)` = bytes b..e are announced and sent, `none` = unsatisfiable (`bytes */n`) -/
 def rangeOf (n : Nat) (b e : Int) : Option (Nat × Nat) :=
-  let e' : Int := if e = 0 then (n : Int) - 1 else e
-  if e' < b ∨ b < 0 ∨ e' ≥ (n : Int) then none else some (b.toNat, e'.toNat)
+  -- a last position at or past the end of the file means "to the end" (37f2453), as does `end = 0`
+  let e' : Int := if e = 0 ∨ e ≥ (n : Int) then (n : Int) - 1 else e
+  if e' < b ∨ b < 0 then none else some (b.toNat, e'.toNat)
 
 /-- bytes `writeFile(path, begin, end)` reads from the file -/
 def fileSlice (content : Bytes) (b e : Nat) : Bytes :=
@@ -579,11 +588,13 @@ def clampPos (v : Nat) : Int := if v > 2147483647 then 2147483647 else v
 /-- the `Range` header text after `bytes=` → `putFile`'s (begin, end); `end = 0` stands for "to the end" -/
 def rangeArgs (n : Nat) (spec : Bytes) : Int × Int :=
   let parts := splitByte 45 spec
+  -- more than 18 characters do not fit a Long: such a position is beyond any file (6971ba6)
+  let posOf (x : Bytes) : Nat := if x.length > 18 then 2147483647 else atoi x
   let first := match parts with
-    | x :: _ => atoi x
+    | x :: _ => posOf x
     | [] => 0
   let last := match parts with
-    | _ :: y :: _ => atoi y
+    | _ :: y :: _ => posOf y
     | _ => 0
   match parts with
   | x :: _ :: _ => if x.isEmpty then suffixRange n last else (clampPos first, clampPos last)
@@ -593,6 +604,68 @@ def contentRangeText (b e n : Nat) : Bytes :=
   [98, 121, 116, 101, 115, 32] ++ utoa b ++ [45] ++ utoa e ++ [47] ++ utoa n
 
 def contentRangeStar (n : Nat) : Bytes := [98, 121, 116, 101, 115, 32, 42, 47] ++ utoa n
+
+/-! ## redirections followed by `Http::request` -/
+
+/-- the status codes `Http::request` follows when asked to -/
+def isRedirectCode (c : Nat) : Bool := c == 301 || c == 302 || c == 307 || c == 308
+
+/-- `Http::request`: a redirection is followed when it names a target (9644a87); else it is the response -/
+def followsRedirect (follow : Bool) (code : Nat) (h : Dic) : Bool :=
+  follow && !(header h sLocation).isEmpty && isRedirectCode code
+
+def startsWith' (s p : Bytes) : Bool := s.take p.length == p
+
+def isSchemeChar (c : UInt8) : Bool :=
+  (48 ≤ c && c ≤ 57) || (65 ≤ c && c ≤ 90) || (97 ≤ c && c ≤ 122) || c == 43 || c == 45 || c == 46
+
+/-- index of the first `://` -/
+def findSchemeSep : Bytes → Nat → Option Nat
+  | 58 :: 47 :: 47 :: _, i => some i
+  | _ :: t, i => findSchemeSep t (i + 1)
+  | [], _ => none
+
+/-- the loop of `resolveLocation` over the segments after the leading `/`: `.` and `..` are removed (RFC 3986 5.2.4) -/
+def removeDots : List Bytes → List Bytes → List Bytes
+  | [], out => out
+  | seg :: rest, out =>
+    let last := rest.isEmpty
+    if seg = [46, 46] then
+      let out := out.dropLast
+      removeDots rest (if last then out ++ [[]] else out)
+    else if seg = [46] then removeDots rest (if last then out ++ [[]] else out)
+    else removeDots rest (out ++ [seg])
+
+def joinSlash : List Bytes → Bytes
+  | [] => []
+  | [x] => x
+  | x :: t => x ++ [47] ++ joinSlash t
+
+/-- `resolveLocation(base, loc)` (7920316): the target of a redirection — `loc` itself when it has a scheme, else resolved
+against the request's URL `base` (RFC 3986 5.2) -/
+def resolveLocation (base loc : Bytes) : Bytes :=
+  let k := (loc.takeWhile isSchemeChar).length
+  if k > 0 ∧ loc[k]? = some 58 then loc else
+  let s := match findSchemeSep base 0 with
+    | some v => if v > 0 then some v else none
+    | none => none
+  if startsWith' loc [47, 47] then (match s with | some v => base.take (v + 1) | none => []) ++ loc else
+  let p := indexOfFrom 47 base (match s with | some v => v + 3 | none => 0)
+  let root := match p with
+    | some p => base.take p
+    | none => base
+  let path := match p with
+    | some p => base.drop p
+    | none => [47]
+  let path := path.takeWhile (fun c => c != 0 && c != 35)
+  if loc.head? = some 35 ∨ loc.isEmpty then root ++ path ++ loc else       -- the same document: path and query stay (7f2fd90)
+  let path := path.takeWhile (fun c => c != 0 && c != 63)                 -- the path of the request without its query
+  if loc.head? = some 63 then root ++ path ++ loc else
+  let e := (loc.takeWhile (fun c => c != 0 && c != 63 && c != 35)).length
+  let dir := path.take (path.length - (path.reverse.takeWhile (· != 47)).length)   -- up to and including the last '/'
+  let dir := if path.contains 47 then dir else []
+  let merged := if loc.head? = some 47 then loc.take e else dir ++ loc.take e
+  root ++ [47] ++ joinSlash (removeDots ((splitByte 47 merged).drop 1) []) ++ loc.drop e
 
 /-! ## `Socket_::write` / `Socket_::read` (src/Socket.cpp): blocking loops over partial transfers
 
@@ -632,6 +705,8 @@ def sockRead (sched : List Nat) (inc : Bytes) (size : Nat) : Bytes × Bool :=
 
 /-! ## `HttpServer::serve(Socket)` around the handler, and `Http::request` around the exchange -/
 
+def sMoved : Bytes := [109, 111, 118, 101, 100]   -- moved
+
 inductive Kind where
   | none
   | bytes (b : Bytes)                         -- `put(ByteArray)` / `put(String)`
@@ -639,6 +714,7 @@ inductive Kind where
   | file (content : Bytes) (ext : Bytes)      -- `put(File)`
   | stream (parts : List Bytes) (fin : Bool)  -- `write(part)` repeatedly, then the last chunk by hand
   | redirect (loc : Bytes) (b : Bytes)        -- `Location` unless the request target is `loc`
+  | redirectRel (loc rel : Bytes) (b : Bytes) -- `Location: rel` verbatim (none when empty) and a 5-byte body, unless the request target is `loc`
 deriving Repr, Inhabited
 
 structure Plan where
@@ -723,6 +799,14 @@ def serveOne (blk rblk : Nat) (optionsDefault : Bool) (q : Request) (p : Plan) (
         let h := setHeader h sLocation (base ++ loc)
         let h := allow p.code (setHeader h sContentLength [48])
         { called := true, wire := serializeWith blk { command := statusLine proto p.code, headers := h, body := [] }, keep := keep }
+    | .redirectRel loc rel b =>
+      if q.resource = loc then
+        let h := allow 200 (setHeader h sContentLength (utoa b.length))
+        { called := true, wire := serializeWith blk { command := statusLine proto 200, headers := h, body := b }, keep := keep }
+      else
+        let h := setHeader h sLocation rel
+        let h := allow p.code (setHeader h sContentLength [53])
+        { called := true, wire := serializeWith blk { command := statusLine proto p.code, headers := h, body := sMoved }, keep := keep }
     | .stream parts fin =>
       let h := setHeader h sTransferEncoding sChunked
       { called := true, wire := serializeStream blk (statusLine proto p.code) h parts fin, keep := keep }
@@ -766,15 +850,31 @@ def interimOf (h : Dic) : Bytes :=
     (if isNeg (header h sContentLength) ∨ atoi (header h sContentLength) < 128000000 then sInterim100 else sInterim417)
   else []
 
+/-- whether the connection was already given up when `HttpRequest::read` came to its interim answer, i.e. while the
+header block was read (a header line without colon or longer than a line may be); a connection given up later, in
+`readBody`, has the interim answer written before -/
+def headClosed (i : Inp) : Bool :=
+  match readLine i with
+  | (none, _) => false
+  | (some cmd, i1) =>
+    if cmd.isEmpty ∨ i1.err then false else
+    match indexOfByte 32 cmd with
+    | none => false
+    | some a =>
+      match indexOfFrom 32 cmd (a + 1) with
+      | none => false
+      | some _ => (readHeaders i1 []).2.closed
+
 /-- one turn of `serve(Socket)`'s loop: (request given to the handler, bytes written back, connection kept, rest) -/
 def serveStep (opt : Bool) (base : Bytes) (p : Plan) (i : Inp) : Option Request × Bytes × Bool × Inp :=
   if i.data.isEmpty ∨ i.dead then (none, [], false, i)
   else
     let (q, i') := readRequest i
-    if ¬ q.valid ∨ i'.err then (none, (if i'.closed then [] else interimOf q.headers), false, i')  -- `client.error()` or a missing part: dropped
-    else if i'.closed then
-      -- the header block broke off after a complete first line: the handler still runs, nothing can be written back
-      (some q, [], false, i')
+    if ¬ q.valid ∨ i'.err ∨ i'.closed then
+      -- `client.error()`, `client.handle() < 0` (the reader gave the connection up: a header line without colon, a
+      -- Content-Length or a chunk-size line that is none, a chunk not followed by CRLF) or a missing part: dropped
+      -- without calling the handler; only the interim answer may have been written
+      (none, (if headClosed i then [] else interimOf q.headers), false, i')
     else
       let s := serve1 opt q p [] base
       (if s.called then some q else none, interimOf q.headers ++ s.wire, s.keep, i')
